@@ -767,18 +767,18 @@ func checkC15(r *Run) []Violation {
 		}
 		// mapper call log: one lookup per table id of the served range, in order of first announcement
 		var wantCalls []string
-		seen := map[uint64]bool{}
-		limit := len(att.Calls)
-		_ = limit
+		seen := map[uint64]string{} // table id -> schema NUL table it currently stands for
 		for fi := h.fileIndex(start.File); fi < len(h.Files) && fi >= 0; fi++ {
 			for _, e := range h.Files[fi].Events {
 				if fi == h.fileIndex(start.File) && int64(e.Offset) < start.Off {
 					continue
 				}
 				if e.Type == evTableMap && e.Unit >= 0 {
-					if t := tableOfEvent(h, e); t != nil && !seen[t.ID] {
-						seen[t.ID] = true
-						wantCalls = append(wantCalls, t.DB+"\x00"+t.Name)
+					// one lookup when an id is announced for the first time, and again when
+					// it is announced for another table (ids restart with the master)
+					if id, key, ok := tableMapHead(h, e); ok && seen[id] != key {
+						seen[id] = key
+						wantCalls = append(wantCalls, key)
 					}
 				}
 			}
@@ -795,6 +795,33 @@ func checkC15(r *Run) []Violation {
 		}
 	}
 	return vs
+}
+
+// tableMapHead reads table id, schema and table name out of a TABLE_MAP body.
+func tableMapHead(h *History, e *Event) (id uint64, key string, ok bool) {
+	n := 6
+	if h.Cfg.TableID4 {
+		n = 4
+	}
+	b := e.Body
+	if len(b) < n+2+1 {
+		return 0, "", false
+	}
+	for i := 0; i < n; i++ {
+		id |= uint64(b[i]) << (8 * uint(i))
+	}
+	p := n + 2
+	dl := int(b[p])
+	if len(b) < p+1+dl+1+1 {
+		return 0, "", false
+	}
+	db := string(b[p+1 : p+1+dl])
+	p += 1 + dl + 1
+	tl := int(b[p])
+	if len(b) < p+1+tl {
+		return 0, "", false
+	}
+	return id, db + "\x00" + string(b[p+1:p+1+tl]), true
 }
 
 func tableOfEvent(h *History, e *Event) *TableDef {
